@@ -105,7 +105,7 @@ def lib_pruned(cell, lvl):
 def random_pruned_case(rng):
     """random ordinary DAG; a pruned twin in which random subtrees are replaced by pruned branches; optional wrappers."""
     n = rng.randint(3, 12)
-    heap = ck.rand_heap(rng, n, [0, 1, 7, 8, 9, 64, 255, 1023], max_refs=3)
+    heap = ck.rand_heap(rng, n, [0, 1, 7, 8, 9, 64, 255, 1017, 1023], max_refs=3)
     objs = ck.build_heap(heap, 'builder')
     wraps = rng.randint(0, 2)
     # twin heap: cells 1..n original, then pruned/rebuilt copies
